@@ -1,0 +1,8 @@
+//go:build verif
+
+package auth
+
+// VerifC04Subjects returns a copy of subjectsFromLogin in append order.
+func (auth *OidcAuthConsumer) VerifC04Subjects() []string {
+	return append([]string(nil), auth.subjectsFromLogin...)
+}
